@@ -6,7 +6,7 @@ import (
 
 	"verif/core"
 	"verif/engine"
-	_ "verif/fsprops"
+	"verif/fsprops"
 	"verif/ops"
 )
 
@@ -29,6 +29,8 @@ func main() {
 		code = core.WorkerMain(os.Args[2:])
 	case "replay":
 		code = core.ReplayMain(os.Args[2])
+	case "killrun":
+		code = fsprops.KillRunMain(os.Args[2])
 	default:
 		fmt.Fprintln(os.Stderr, "unknown command", os.Args[1])
 		code = 2
